@@ -28,7 +28,7 @@ Definition hres_eqb (x y : hresult opmat dyad) : bool :=
   list_eqb (list_eqb (pair_eqb String.eqb String.eqb)) (r_map x) (r_map y).
 Definition kind_eqb (a b : kind) : bool := match a, b with Control, Control | Noise, Noise => true | _, _ => false end.
 Definition herror_eqb (a b : herror) : bool :=
-  match a, b with EOperIds k, EOperIds k' => kind_eqb k k' | ENoInfer, ENoInfer => true | _, _ => false end.
+  match a, b with EOperIds k, EOperIds k' => kind_eqb k k' | EDupIds k, EDupIds k' => kind_eqb k k' | ENoInfer, ENoInfer => true | _, _ => false end.
 Definition cerror_eqb (a b : cerror) : bool :=
   match a, b with
   | EShapes, EShapes | EBases, EBases | EForced, EForced | ENoFreqPC, ENoFreqPC
